@@ -1,6 +1,6 @@
 use insim_core::{
     binrw::{self, binrw},
-    string::{binrw_parse_codepage_string, binrw_write_codepage_string},
+    string::{binrw_parse_codepage_string, binrw_write_codepage_string_terminated},
 };
 
 use crate::identifiers::RequestId;
@@ -15,7 +15,7 @@ pub struct Msx {
     pub reqi: RequestId,
 
     /// Message
-    #[bw(write_with = binrw_write_codepage_string::<96, _>)]
+    #[bw(write_with = binrw_write_codepage_string_terminated::<96, _>)]
     #[br(parse_with = binrw_parse_codepage_string::<96, _>)]
     pub msg: String,
 }
